@@ -97,6 +97,11 @@ def run(chk):
     core.differential(chk, "docs_treeinfo:discinfo", dcases, "dump_di", model_cases=[c["desc"] for c in dcases], impl_fn="impl_discinfo",
                       oracle=oracle_di, nontrivial=lambda c, r: c["desc"]["disc_numbers"] != ["ALL"],
                       normalise=lambda r: r[:2] if (isinstance(r, list) and r and r[0] == "ok") else r)
+    # how many of the generated .discinfo objects fall under the hypotheses of C04_discinfo_roundtrip (executable test, proved sound)
+    app = core.run_model([wire.encode_line("di_applicable", c["desc"]) for c in dcases])
+    covered = sum(1 for a in app if a is True)
+    chk.obligation("theorem-applicability:C04_discinfo_roundtrip", covered > 0, "%d of %d generated objects" % (covered, len(dcases)))
+    chk.record_suite("docs_treeinfo:discinfo_theorem_applicability", {"objects": len(dcases), "under_the_theorem": covered})
     # the .discinfo READER on arbitrary texts: model reader (load_di) vs DiscInfo.loads, and what the re-read object writes
     tcases = S.gen_discinfo_texts(rng, 4 * N[chk.tier])
     ir = core.ImplRunner("docs_treeinfo", fn="impl_load_discinfo", per_case_timeout=10.0)
